@@ -1,6 +1,7 @@
 import PvModel.Props.C02
 import PvModel.Props.C02Program
 import PvModel.Props.C02Decide
+import PvModel.Props.C02Rel
 #print axioms Pv.C02_invariant_ok
 #print axioms Pv.C02_invariant_fail
 #print axioms Pv.C02_step_ok
@@ -14,3 +15,5 @@ import PvModel.Props.C02Decide
 #print axioms Pv.C02_decides
 #print axioms Pv.C02_projection
 #print axioms Pv.C02_answer_instances
+#print axioms Pv.C02_rel_state_normal
+#print axioms Pv.C02_rel_answer_instances
